@@ -8,7 +8,8 @@ def run(tier):
     run, fx = start("C19", tier,
         "T10/T2: no write to a per-descriptor limit table guards a panic (setsockopt may repeat, two threads may both miss in the lazy fill); T9/T3: every table keyed by descriptor number is "
         "cleared from the hooked close before the inner close (directly on all paths, or through del_event); T5/T6: limit direction per wrapper, "
-        "setsockopt update only under r == 0, SOL_SOCKET and the matching option, value through get_time_limit (panic-free, zero means unlimited).",
+        "setsockopt update only under r == 0, SOL_SOCKET and the matching option, value through get_time_limit (panic-free, zero means unlimited); T9 the tables are written only by the lazy fill, setsockopt and close; "
+        "T5 each lazy fill reads the matching option of its own descriptor.",
         ["core/default"],
         not_decided=["the option value the kernel actually holds"],
         assumptions=["SOL_SOCKET == 1, SO_RCVTIMEO == 20, SO_SNDTIMEO == 21 on this target"])
